@@ -150,7 +150,7 @@ pub fn check_item(it: &Item, c: &Ctx, quick: bool, only: Option<(&str, NaiveDate
             starts.extend(fixed_starts());
             let n_runs = p.n_runs().max(1) as u64;
             let per_start = (exhaust_cost / n_runs).max(1) * n_runs.min(40);
-            let budget: u64 = if quick { 2_000_000 } else { 400_000_000 };
+            let budget: u64 = if quick { 2_000_000 } else { 30_000_000 };
             let allowed = ((budget / per_start.max(1)) as usize).max(if quick { 3 } else { 12 });
             if capped || allowed < starts.len() {
                 acc.add("expressions_hitting_start_cap", 1);
